@@ -40,9 +40,12 @@ STATEMENTS = [
     'gl = v => len("abc"); gl(0)', 'len = v => 42; gl(0)', 'gl(0)', 'map([1, 2], v => len("ab") + v)', 'b0()', 'b8(1)', 'map([1], v => b0() + v)', 'b0() + len("ab")',
     'body = u => hh(u); w = hh => body(1); w(x => x + 41); body(1)', 'body = u => hh(u); w = hh => body(1); w(x => x + 41) + w(x => x + 1)',
     'cs = v => len(v); w3 = len => cs("ab"); [w3(x => 7), cs("abc")]',
+    # the host changes its own mapping while the program runs (a callback that rebinds / unbinds the name): every read resolves afresh
+    '[len, bump(), len]', 'bump(); len', 'unbind(); len("ab")', '[len("ab"), unbind(), len("ab")]', 'g(0) + [bump(), g(0)][1]',
+    'map([1, 2], v => [len, bump(), len])', 'len = 5; [len, unbind(), len("abc")]', 'f2 = len => [len, bump(), len]; f2(1)', 'bump(); len += 1; len',
     'f(None)', 'len = None', 'h(None)', 'map([None, 3], f)', 'f(0)', 'f(False)', 'f("")', 'len = 0', 'g = None', 'b3(None)',
 ]
-DEEP = ['cs = v => len(v); w3 = len => cs("ab"); [w3(x => 7), cs("abc")]', 'gl = v => len("abc"); gl(0)', 'len = v => 42; gl(0)', 'b0()', 'b8(1)', 'swallow(deep, 200); len', 'swallow_all(deep, 260); len("ab")', 'swallow_all(deep, 900); len', 'w2(4)', 'add(5)', 'fib(5)', 'len', 'len("ab")', 'len = 5', 'len += 1', 'f(1)', 'g(0)', 'h(3)', 'b1(0)', 'b2(0)', 'b3(5)', 'swallow(r, 1); len',
+DEEP = ['[len, bump(), len]', 'unbind(); len("ab")', 'bump(); len', 'cs = v => len(v); w3 = len => cs("ab"); [w3(x => 7), cs("abc")]', 'gl = v => len("abc"); gl(0)', 'len = v => 42; gl(0)', 'b0()', 'b8(1)', 'swallow(deep, 200); len', 'swallow_all(deep, 260); len("ab")', 'swallow_all(deep, 900); len', 'w2(4)', 'add(5)', 'fib(5)', 'len', 'len("ab")', 'len = 5', 'len += 1', 'f(1)', 'g(0)', 'h(3)', 'b1(0)', 'b2(0)', 'b3(5)', 'swallow(r, 1); len',
         'swallow_all(r2, 1); len("abc")', 'map([1], g)', 'y']
 
 AST_BODIES = {
@@ -102,7 +105,14 @@ def model_hosts():
             return m.fn(a[0], a[1])
         except (M.PErr, M.OtherErr):
             return M.Num.of_int(-2)
-    return {'apply': HostFn(apply), 'swallow': HostFn(swallow), 'swallow_all': HostFn(swallow_all)}
+    def bump(m, a):
+        m.scopes[1]['len'] = M.Num.of_int(55)
+        return None
+
+    def unbind(m, a):
+        m.scopes[1].pop('len', None)
+        return None
+    return {'apply': HostFn(apply), 'swallow': HostFn(swallow), 'swallow_all': HostFn(swallow_all), 'bump': HostFn(bump), 'unbind': HostFn(unbind)}
 
 
 def real_hosts():
@@ -170,6 +180,14 @@ def run_sequence(res, hist, with_host_len, mode):
     D = api.Decimal
     rnames = dict(real_hosts())
     mnames = dict(model_hosts())
+    holder = [rnames]
+
+    def bump():
+        holder[0]['len'] = D(55)
+
+    def unbind():
+        holder[0].pop('len', None)
+    rnames['bump'], rnames['unbind'] = bump, unbind
     if with_host_len == 'num':
         rnames['len'] = D(100)
         mnames['len'] = M.Num.of_int(100)
@@ -180,6 +198,7 @@ def run_sequence(res, hist, with_host_len, mode):
         # the host mapping is a dict subclass with __missing__: lookups must test membership, never provoke the default
         import collections
         rnames = collections.defaultdict(lambda: D(77), rnames)
+        holder[0] = rnames
     no_names = with_host_len == 'no-names'
     progs = list(hist) if mode == 'separate' else ['; '.join(hist)]
     fn_ids0 = (id(api.FUNCTIONS), {k: id(v) for k, v in api.FUNCTIONS.items()})
@@ -198,6 +217,8 @@ def run_sequence(res, hist, with_host_len, mode):
         mach = M.Machine(mnames, known_builtins=list(api.FUNCTIONS))
         for k, c in m_ast.items():
             mnames[k] = c
+        if mode == 'separate' and len(hist) <= 2 and prog is progs[-1]:
+            msaved = _copy_model_names(mnames)
         undefined = False
         try:
             mout = ('val', canon_model(mach.run(tree[1])))
@@ -212,6 +233,9 @@ def run_sequence(res, hist, with_host_len, mode):
             undefined = True
             mout = None
         # real
+        sweep_abort = mode == 'separate' and len(hist) <= 2 and prog is progs[-1] and not no_names and with_host_len in ('absent', 'num', 'defaultdict')
+        if sweep_abort:
+            saved = _copy_names(rnames)
         w = Watch()
         try:
             with opwrap.traced(w):
@@ -250,14 +274,79 @@ def run_sequence(res, hist, with_host_len, mode):
                           dict(wit, expected=repr(mout)[:200], observed=repr(rout)[:200]))
             return None
         cm = canon_model({k: v for k, v in mnames.items() if not isinstance(v, HostFn) and k not in AST_BODIES})
-        cr = canon_real({k: v for k, v in rnames.items() if k not in ('apply', 'swallow', 'swallow_all') and k not in AST_BODIES})
+        cr = canon_real({k: v for k, v in rnames.items() if k not in ('apply', 'swallow', 'swallow_all', 'bump', 'unbind') and k not in AST_BODIES})
         if not no_names and cm != cr:
             res.violation(f'host-names:{_kind(prog)}', 'the host names mapping differs from the scope model after eval (a lambda-local binding '
                           'leaked, or a top-level one was lost)', dict(wit, expected=repr(cm)[:300], observed=repr(cr)[:300]))
             return None
         res.outcome(f'{_kind(prog)}:{mout[0]}')
+        if sweep_abort and w.state is not None:
+            # ---- every abort point of this call: the same call under every budget N <= K, on an equal copy of the names
+            A = len(AST_BODIES)             # the host-supplied trees are evaluated first, one operation each, under the same budget
+            K = w.state.ops_evaluated - A
+            prefix_states = []
+            skip = ('apply', 'swallow', 'swallow_all', 'bump', 'unbind')
+            for N in range(1, min(K, ABORT_CAP) + 1):
+                # the reference run stopped at its N-th operation: the host names it leaves are a state the unbounded run passes through
+                mn = _copy_model_names(msaved)
+                mach2 = M.Machine(mn, budget=N, known_builtins=list(api.FUNCTIONS))
+                try:
+                    mach2.run(tree[1])
+                except (M.PErr, M.OtherErr):
+                    pass
+                except (M.Undefined, RecursionError):
+                    break
+                ms = canon_model({k: v for k, v in mn.items() if not isinstance(v, (HostFn, M.Closure, M.Builtin)) and k not in AST_BODIES})
+                if ms not in prefix_states:
+                    prefix_states.append(ms)
+                rn = _copy_names(saved)
+                holder[0] = rn
+                w2 = Watch()
+                try:
+                    with opwrap.traced(w2):
+                        parser().eval(prog, rn, ast_names=ast_names_real(), max_ops_evaluated=N + A)
+                except Exception:  # noqa
+                    pass
+                res.count('evals')
+                res.count('abort_points')
+                wit2 = dict(wit, budget=N, K=K)
+                fn_ids2 = (id(api.FUNCTIONS), {k: id(v) for k, v in api.FUNCTIONS.items()})
+                bad = None
+                if w2.state is not None and len(w2.state.names.scopes) != 2:
+                    bad = ('scope-stack-after-abort', f'{len(w2.state.names.scopes)} scopes')
+                elif w2.state is not None and w2.state.names.scopes[1] is not rn:
+                    bad = ('host-scope-replaced-after-abort', 'another object')
+                elif fn_ids2 != fn_ids0:
+                    bad = ('builtin-table-modified-after-abort', repr(sorted(set(fn_ids2[1]) ^ set(fn_ids0[1])))[:200])
+                else:
+                    got = canon_real({k: v for k, v in rn.items() if not callable(v) and k not in skip and k not in AST_BODIES})
+                    if got not in prefix_states:
+                        bad = ('host-names-after-abort', repr(got)[:300])
+                if bad:
+                    res.violation(f'{bad[0]}:{_kind(prog)}', 'after an eval call that was aborted by the ops limit: the scope stack is not [builtins, host '
+                                  'names] / the builtin table changed / the host mapping holds a name that neither the host nor a top-level assignment bound',
+                                  dict(wit2, expected='[builtins, host names]; host names one of ' + repr(prefix_states[::-1])[:300], observed=bad[1]))
+                    holder[0] = rnames
+                    return None
+            holder[0] = rnames
     st = repr(sorted((k, _show_model(v)) for k, v in mnames.items() if not isinstance(v, HostFn) and k not in AST_BODIES))
     return st
+
+
+ABORT_CAP = 40
+
+
+def _copy_names(names):
+    import copy
+    new = type(names)(names.default_factory) if hasattr(names, 'default_factory') else {}
+    for k, v in names.items():
+        new[k] = v if callable(v) else copy.deepcopy(v)
+    return new
+
+
+def _copy_model_names(names):
+    import copy
+    return {k: (v if isinstance(v, (HostFn, M.Closure, M.Builtin)) else copy.deepcopy(v)) for k, v in names.items()}
 
 
 def _show_model(v):
